@@ -75,3 +75,36 @@ def heal_ops(w, ir):
     if n.a["version"] != 4:
         ops.append({"op": "setattr", "label": ir, "attr": "version", "value": 4})
     return ops
+
+
+def enrich_ops(w, r, ir):
+    """API operations that give `ir` at least one reference of each kind
+    (entry point, symbol referent, CFG edges, symbolic expressions), using only
+    nodes already attached to it. Model only."""
+    from . import values as V
+    from .gen_misc import gen_label
+
+    m = w.m
+    ops = []
+    sub = m.subtree(ir)
+    cfgn = [l for l in sub if m.nodes[l].kind in ("cb", "px")]
+    for ml in m.nodes[ir].a["modules"]:
+        local = [l for l in m.subtree(ml)]
+        cbs = [l for l in local if m.nodes[l].kind == "cb"]
+        blocks = [l for l in local if m.nodes[l].kind in ("cb", "db", "px")]
+        syms = [l for l in local if m.nodes[l].kind == "sym"]
+        bis = [l for l in local if m.nodes[l].kind == "bi"]
+        if cbs and m.nodes[ml].a["entry_point"] is None and r.random() < 0.8:
+            ops.append({"op": "setattr", "label": ml, "attr": "entry_point", "value": cbs[r.randrange(len(cbs))]})
+        for s in syms:
+            if blocks and m.nodes[s].a["payload"] is None and r.random() < 0.6:
+                ops.append({"op": "setattr", "label": s, "attr": "referent", "value": blocks[r.randrange(len(blocks))]})
+        for b in bis:
+            if syms and len(m.nodes[b].a["se"]) < 2 and r.random() < 0.6:
+                s1, s2 = syms[r.randrange(len(syms))], syms[r.randrange(len(syms))]
+                spec = ["ac", V.i64(r), s1, []] if r.random() < 0.5 else ["aa", V.i64(r), V.i64(r), s1, s2, [r.choice(V.SE_ATTRS)]]
+                ops.append({"op": "se", "bi": b, "method": "setitem", "args": [V.small(r, 12), spec]})
+    for _ in range(3):
+        if cfgn and len(m.nodes[ir].a["cfg"]) < 4:
+            ops.append({"op": "cfg", "ir": ir, "method": "add", "args": [[cfgn[r.randrange(len(cfgn))], cfgn[r.randrange(len(cfgn))], gen_label(r)]]})
+    return ops
